@@ -256,14 +256,16 @@ impl<'a, D: Dataset + ?Sized> ExecState<'a, D> {
                 let graph_matcher = vec![Some(ArcTerm::Iri(IriRef::new_unchecked(
                     self.stash.copy_str(nn.as_str()),
                 )))];
-                self.select(inner, &graph_matcher, binding)
+                let bindings = self.select(inner, &graph_matcher, binding)?;
+                Ok(self.only_if_named_graph(&graph_matcher[0], bindings))
             }
             NamedNodePattern::Variable(var) => {
                 if let Some(name) = binding.and_then(|b| b.v.get(var.as_str())) {
                     let graph_matcher = vec![Some(name.inner().clone())];
-                    self.select(inner, &graph_matcher, binding)
+                    let bindings = self.select(inner, &graph_matcher, binding)?;
+                    Ok(self.only_if_named_graph(&graph_matcher[0], bindings))
                 } else {
-                    let Bindings { variables, .. } = self.select(inner, &[], binding)?;
+                    let Bindings { mut variables, .. } = self.select(inner, &[], binding)?;
                     let graph_names = self
                         .config()
                         .dataset
@@ -272,11 +274,33 @@ impl<'a, D: Dataset + ?Sized> ExecState<'a, D> {
                         .collect::<Result<BTreeSet<_>, _>>()
                         .map_err(SparqlWrapperError::Dataset)?;
                     if graph_names.is_empty() {
-                        self.select(inner, &[], binding)
+                        // no named graph: the union over the graph names is empty
+                        if variables.iter().all(|v| v.as_str() != var.as_str()) {
+                            variables.push(self.stash.copy_variable(var));
+                        }
+                        let iter = Box::new(std::iter::empty());
+                        Ok(Bindings { variables, iter })
                     } else {
                         self.graph_rec(var.as_str(), graph_names.into_iter(), inner, binding)
                     }
                 }
+            }
+        }
+    }
+
+    /// A graph name that is not the name of a graph of the dataset has no solution
+    /// (not even for the empty group).
+    fn only_if_named_graph(
+        &self,
+        name: &Option<ArcTerm>,
+        bindings: Bindings<'a, D>,
+    ) -> Bindings<'a, D> {
+        if self.config.named_graphs.iter().any(|[gn]| gn == name) {
+            bindings
+        } else {
+            Bindings {
+                variables: bindings.variables,
+                iter: Box::new(std::iter::empty()),
             }
         }
     }
